@@ -87,8 +87,15 @@ def containers(full: Sequence[str], reps: Sequence[str], reps3: Sequence[str]) -
     return out
 
 
+# dicts keyed by instances of str subclasses (their str() differs from the key), alone and next to plain keys
+STR_SUBCLASS_KEYED: List[str] = [
+    "{LoudStr('a'): 0}", "{SColor.RED: 0}", "{LoudStr('a'): 0, 'b': 'a'}", "{SColor.RED: 0, SColor.BLUE: 'a'}", "[{SColor.RED: 0}]", "{'a': {LoudStr('b'): 0}}",
+    "LoudStr('a')", "SColor.RED", "defaultdict(int, {LoudStr('a'): 0})",
+]
+
+
 def depth1() -> List[str]:
-    return list(ATOMS) + containers(ATOMS, REPS, REPS3)
+    return list(ATOMS) + containers(ATOMS, REPS, REPS3) + STR_SUBCLASS_KEYED
 
 
 # representatives of depth-1 shapes (one per shrink/get_type arm seam) used as elements at depth 2
